@@ -1749,6 +1749,9 @@ class PseudoNetCDFFile(PseudoNetCDFSelfReg, object):
                     time = self.variables['time_bounds']
                     time = np.append(time[:, 0], time[-1, 1])
                 else:
+                    # in double precision: an int32 axis spanning 2**31 or
+                    # more units wraps in np.diff
+                    time = time[:].astype('d')
                     dts = np.diff(time)
                     dt = dts.mean()
                     if (dt != dts).all():
